@@ -98,7 +98,8 @@ def classify_accept(st: ast.stmt) -> list[str]:
         return []
     if isinstance(st, ast.With) and ast.unparse(st.items[0].context_expr) == "state_lock":
         inner = [ast.unparse(x) for x in st.body]
-        if inner == ["conn_count += 1", "_cancel_timer_locked()"]:
+        # `conn_count += 1` first; the rest of the block is idle-shutdown bookkeeping (C33's subject)
+        if inner[:1] == ["conn_count += 1"] and all(x in ("_cancel_timer_locked()", "shutdown_requested = False") for x in inner[1:]):
             return ["countUp"]
         if inner == ["active.add(t)"]:
             return []
@@ -220,7 +221,7 @@ deriving Repr, DecidableEq
 /-- abstract operations of one iteration of the accept loop -/
 inductive AOp where
   | accept      -- `conn, _ = sock.accept()` (timeout → continue / break, OSError → break)
-  | countUp     -- `with state_lock: conn_count += 1; _cancel_timer_locked()`
+  | countUp     -- `with state_lock: conn_count += 1; _cancel_timer_locked() [; shutdown_requested = False]`
   | thread      -- `t = threading.Thread(target=_handle, args=(conn,), …)`
   | start       -- `t.start()`
   | other
